@@ -97,10 +97,13 @@ def cleanSpace (s : Str) : Str := trimSpace (replace2 (replace2 s))
 
 def digitB (n : Nat) : UInt8 := UInt8.ofNat (48 + n)
 
-/-- `strconv.Itoa` on a natural number -/
-def natToDec : Nat → Str
-  | n => if _h : n < 10 then [digitB n] else natToDec (n / 10) ++ [digitB (n % 10)]
-decreasing_by omega
+/-- `strconv.Itoa` on a natural number.  Structural recursion on a fuel argument (the number
+    itself is always enough) so that the kernel can evaluate it. -/
+def natToDecAux : Nat → Nat → Str
+  | 0, n => [digitB (n % 10)]
+  | f + 1, n => if n < 10 then [digitB n] else natToDecAux f (n / 10) ++ [digitB (n % 10)]
+
+def natToDec (n : Nat) : Str := natToDecAux n n
 
 def decToNat (s : Str) : Nat := s.foldl (fun acc b => acc * 10 + (b.toNat - 48)) 0
 
